@@ -45,12 +45,14 @@ def oracle(h, arrivals, horizon):
         j += 1
 
 
-def run_impl(h, arrivals, horizon, kinds, sends=(), crumbs=(), flow=()):
+def run_impl(h, arrivals, horizon, kinds, sends=(), crumbs=(), flow=(), lead=0):
     """Real connection with keepalive K = 2h units; returns [('P', t) | ('X', t)] in units.
     sends: times at which the CLIENT writes a command - the property counts the device's messages only.
     crumbs: times (after the last arrival) at which the device sends one more byte of a frame that is never completed - bytes
     that do not complete a message are not messages.
-    flow: (time, 'pause' | 'resume') - the transport reports back-pressure; the keep-alive does not depend on it."""
+    flow: (time, 'pause' | 'resume') - the transport reports back-pressure; the keep-alive does not depend on it.
+    lead: if > 0, ANOTHER session with the same K was established `lead` units earlier in the same process and stays alive (its
+    device chatters); sessions have nothing to do with each other, the measured one behaves as if it were alone."""
     from aioesphomeapi import api_pb2 as pb
     from aioesphomeapi.core import PingFailedAPIError
     K = 2 * h * UNIT
@@ -61,6 +63,16 @@ def run_impl(h, arrivals, horizon, kinds, sends=(), crumbs=(), flow=()):
         net = simnet.Net(loop)
         stops = []
         with net.patched():
+            other = None
+            if lead:
+                other, otr = await simnet.connected_client(loop, net, keepalive=K, on_stop=None)
+
+                def chatter():
+                    if not otr.closing:
+                        otr.feed(simnet.plain_msg(pb.SensorStateResponse(key=9, state=0.5)))
+                        loop.call_later(K * 0.37, chatter)
+                loop.call_later(K * 0.37, chatter)
+                await simnet.advance(loop, to=loop.time() + lead * UNIT)
             cli, tr = await simnet.connected_client(loop, net, keepalive=K, on_stop=None)
             conn = priv(cli, "_connection")
             t0 = loop.time()
@@ -97,6 +109,9 @@ def run_impl(h, arrivals, horizon, kinds, sends=(), crumbs=(), flow=()):
                 ev.append(("X" if (not expected and fatal == "PingFailedAPIError") else f"STOP({expected},{fatal})", round(t / UNIT)))
             if not stops:
                 priv(cli, "_connection").force_disconnect() if priv(cli, "_connection") else None
+                await simnet.drain(loop)
+            if other is not None and priv(other, "_connection"):
+                priv(other, "_connection").force_disconnect()
                 await simnet.drain(loop)
             return sorted(ev, key=lambda e: (e[1], e[0] == "X"))
     return simnet.run(go)
@@ -139,7 +154,7 @@ def run(rep, tier, seed):
     rng = random.Random(seed)
     rep.coverage["rule"] = (
         "keepalive K in {0.25,1,2.5,5,7,15,20,20.5,30,60} s x arrival schedules (grid of K/16 with +-2^-10 s jitter, edges around every tick and pong deadline, "
-        "bursts, single message, chatty peers with gaps just under/over K, 2K, 4.5K, messages inside the pong window, total silence) of valid messages of 6 types, every third schedule with the client itself writing commands throughout, every fourth with single bytes of a never completed frame trickling in after the last message, every fifth with the transport reporting back-pressure (pause_writing, sometimes resume_writing); "
+        "bursts, single message, chatty peers with gaps just under/over K, 2K, 4.5K, messages inside the pong window, total silence) of valid messages of 6 types, every third schedule with the client itself writing commands throughout, every fourth with single bytes of a never completed frame trickling in after the last message, every fifth with the transport reporting back-pressure (pause_writing, sometimes resume_writing), every seventh beside another live session with the same K established a fraction of K earlier; "
         "arrivals exactly at a timer instant are excluded (order of equal timers is loop-internal); non-trivial = at least one ping is written; distinct by (K, schedule)")
     proofs_ok = rep.proofs(VFILE)
     ok, log = common.build_driver()
@@ -178,7 +193,12 @@ def run(rep, tier, seed):
             flow = [(t1, "pause")] + ([(t1 + rng.randrange(1, 6 * h), "resume")] if rng.random() < 0.4 else [])
             flow = [(t, w) for t, w in flow if t % h != 0 and t not in arr and t not in sends and t not in crumbs]
             rep.bump("back-pressure")
-        impl = run_impl(h, arr, hz, kinds, sends, crumbs, flow)
+        lead = 0
+        if ci % 7 == 3:
+            # another session with the same K, established a fraction of K earlier, is alive in the same process
+            lead = rng.choice([h // 2 + 1, h + 7, 2 * h - 5, 3 * h + 11])
+            rep.bump("neighbour-session")
+        impl = run_impl(h, arr, hz, kinds, sends, crumbs, flow, lead)
         exp = oracle(h, arr, hz)
         model = [(x[0], int(x[1:])) for x in mo.split(",") if x]
         rep.bump("mode:" + mode)
@@ -198,8 +218,8 @@ def run(rep, tier, seed):
                 sig, what = "C10/silent-peer-kept", f"silent peer not dropped: expected death at {ex_[0][1] * UNIT} s"
             else:
                 sig, what = "C10/death-time", f"death {ix} vs expected {ex_} (units of 1/1024 s)"
-            rep.violation(sig, f"K={2 * h * UNIT} s, arrivals {[a * UNIT for a in arr][:10]}: {what}",
-                          {"kind": "impl-case", "h": h, "arrivals": arr, "horizon": hz, "kinds": kinds, "client_sends": sends, "crumbs": crumbs, "flow": flow, "expected": exp, "observed": impl})
+            rep.violation(sig, f"K={2 * h * UNIT} s{', another session with the same K established ' + str(lead * UNIT) + ' s earlier' if lead else ''}, arrivals {[a * UNIT for a in arr][:10]}: {what}",
+                          {"kind": "impl-case", "h": h, "arrivals": arr, "horizon": hz, "kinds": kinds, "client_sends": sends, "crumbs": crumbs, "flow": flow, "lead": lead, "expected": exp, "observed": impl})
         if model != impl:
             disagreements.append({"h": h, "arrivals": arr, "horizon": hz, "model": model[:20], "impl": impl[:20]})
     rep.coverage["disagreements"] = len(disagreements)
@@ -216,7 +236,7 @@ def replay(path):
     if d.get("kind") != "impl-case":
         print("nothing to replay:", d.get("kind"))
         return 0
-    impl = run_impl(d["h"], d["arrivals"], d["horizon"], d["kinds"], d.get("client_sends", ()), d.get("crumbs", ()), [tuple(x) for x in d.get("flow", ())])
+    impl = run_impl(d["h"], d["arrivals"], d["horizon"], d["kinds"], d.get("client_sends", ()), d.get("crumbs", ()), [tuple(x) for x in d.get("flow", ())], d.get("lead", 0))
     exp = oracle(d["h"], d["arrivals"], d["horizon"])
     print("observed:", impl)
     print("expected:", exp)
